@@ -219,7 +219,7 @@ theorem money_rendering_close (q : Rat) (h : 0 ≤ q) :
     ((cents q : Rat) / 100 - q ≤ 1 / 200) ∧ (q - (cents q : Rat) / 100 ≤ 1 / 200) ∧
     fmt2 q = toString (cents q / 100) ++ "." ++ pad2 (cents q % 100) := by
   have hn : ¬ q < 0 := by grind
-  have hc : cents q = roundHalfEven (q * 100) := by simp [cents, hn]
+  have hc : cents q = Report.roundHalfEven (q * 100) := by simp [cents, hn]
   have := roundHalfEven_close (q * 100)
   refine ⟨?_, ?_, ?_⟩
   · rw [hc]; grind
